@@ -4,6 +4,7 @@ import SfVerif.Lemmas.GenWriter
 import SfVerif.Lemmas.PLang2
 import SfVerif.Lemmas.Frame3
 import SfVerif.Gen.WasmFinalize
+import SfVerif.Lemmas.Sched
 /-! C02 — a completed output document is exactly the value that was written. -/
 namespace SfVerif.Props.C02
 open SfVerif SfVerif.Gen
@@ -362,6 +363,23 @@ theorem C02_every_thread_history (w : Nat) (ops : List Op) (hs : ∀ op ∈ ops,
   rw [hw] at hfin ⊢
   obtain ⟨v, h1, h2, h3, h4⟩ := C02_every_history (callsSince w {} [] ops) hwf hfin
   exact ⟨v, h2, h1, h3, h4⟩
+
+/-- **C02 under every interleaving of any number of threads**: whatever the other threads do and
+    wherever their steps fall (also between this thread's string-destination request and its copy —
+    here: between any two of its write calls), a thread whose finalisation reports the output complete
+    has produced exactly the canonical encoding of the value tree its *own* accepted write calls
+    describe. Uses the schedule theorem behind C14 (`Lemmas/Sched`). -/
+theorem C02_every_schedule (w : Nat) (sched : Sys.Sched) (t : Nat)
+    (hs : ∀ op ∈ SfVerif.Props.C14.script t sched, Op.wholeWrites op = true)
+    (hwf : ∀ a ∈ callsSince w {} [] (SfVerif.Props.C14.script t sched), a.wf = true)
+    (hfin : (((Sys.runSched w {} sched).1.get t).ctx.writer.finalize).1 = WriteResult_Ok) :
+    ∃ v : TVal, wfV v = true ∧ v.ser = (runKeep {} (callsSince w {} [] (SfVerif.Props.C14.script t sched))).2 ∧
+      ((Sys.runSched w {} sched).1.get t).ctx.writer.finalize = (WriteResult_Ok, v.enc.toArray) ∧
+      decodeAll ((Sys.runSched w {} sched).1.get t).ctx.writer.out = some v.doc := by
+  have h := (SfVerif.Props.C14.noninterference_from w t sched {}).2
+  have h0 : ({} : Sys).get t = {} := by simp [Sys.get]
+  rw [h, h0] at hfin ⊢
+  exact C02_every_thread_history w _ hs hwf hfin
 
 /-- the wasm-only `finalize` export (not compiled natively; regenerated from provider/src/lib.rs) hands
     the host six words: the first two are the output buffer's address and its length — what `out?` / finalisation show natively is what the host reads on wasm -/
